@@ -15,7 +15,7 @@ MOD = "mc.props.c04"
 FIELD_SETS = [
     ["id"], ["name", "id"], ["id", "name", "kind"], ["kind", "amount", "day"], ["code", "tag", "const", "note"],
     ["id", "amount", "day", "code", "num"], ["num", "note"], ["const", "id", "kind", "tag", "name"], ["day", "num", "name"],
-    ["amount", "name"], ["tag", "code"], ["note", "kind", "id"], ["stamp", "id"],
+    ["amount", "name"], ["tag", "code"], ["note", "kind", "id"], ["stamp", "id"], ["kind", "note"],
 ]
 
 
